@@ -24,6 +24,10 @@ _REPLAY_COMMON = dict(
 )
 
 seq(prop="C04", lean_targets=["TransportVerif.Props.C04"], driver_args=["C04"],
+    design_ref="DESIGN.md 7.4, 10",
+    technique="Lean 4 proof: refinement invariant between the word-level detector model and the accepted-set recorder, by induction over histories; differential correspondence model vs. Go (L1 outputs, L2 mask words)",
+    level_text="Theorems judged04 / plain_never_twice / never_above_max / never_panics (Props/C04.lean) hold for every window, every maximum (wrapping: < 2^62), every history of any length, proved in Lean 4 about a word-level model of fixedbig.go and replaydetector.go (per-bit lemma for the multi-word shift, refinement to the set of accepted numbers). The model is hand-written; it is tied to the working tree by running model and real package on the same generated histories and comparing every answer, latestSeq, init and every mask word after every operation, plus an exhaustive enumeration of tiny sequence spaces.",
+    level_note="Trusted: Lean kernel; axioms propext/Classical.choice/Quot.sound; the reading of C04 in Spec/Replay.lean (mustRefuse/allowed04); the correspondence harness (differential testing, generator-bounded). Wrapping detector maxima >= 2^62 are outside the theorem (signed 64-bit arithmetic) and covered by correspondence only.",
     nontrivial=["replay-in-window", "replay-behind-window", "replay-top-word", "above-max"],
     rule="random histories (<=60 ops) of check / check+accept over boundary-biased windows and maxima, both detectors; "
          "forward jumps of every distance class, late arrivals at every window offset, replays of accepted numbers. "
@@ -31,7 +35,45 @@ seq(prop="C04", lean_targets=["TransportVerif.Props.C04"], driver_args=["C04"],
     **_REPLAY_COMMON)
 
 seq(prop="C05", lean_targets=["TransportVerif.Props.C05"], driver_args=["C05"],
+    design_ref="DESIGN.md 7.5, 10",
+    technique="Lean 4 proof: the model's answers equal the exact sliding-window rule evaluated on the recorded history (refinement by induction over histories); purity of Check as a state-equality theorem; differential correspondence model vs. Go",
+    level_text="Theorem judged05 (Props/C05.lean): for both detectors, every configuration in C05's scope and every history, Check's answer and accept's return value equal the rule expectedOk/expectedLatest of Spec/Replay.lean (the two numbers nearest the half-space boundary, and first use in a space of <= 4 numbers, are unconstrained as the property says); check_is_pure / check_changes_no_later_answer / refused_is_pure: a Check without accept leaves the detector state equal. Tie to the code as for C04.",
+    level_note="Trusted: Lean kernel and the three standard axioms; the reading of C05 in Spec/Replay.lean; the correspondence harness. Accept is assumed to be invoked before the next Check (the property's quantifier).",
     nontrivial=["late", "shift>=64", "shift>=window", "near-boundary", "near-2^64", "late-across-wrap", "advance-across-wrap"],
     rule="as C04; non-trivial = the history contains a late arrival, a window shift of >= 64 or >= window, a number near the "
          "half-space boundary or within window of 2^64; distinct = hash of the ops text",
     **_REPLAY_COMMON)
+
+
+_RING_COMMON = dict(
+    pkg="packetio", run="^TestVerifRing$", component="ring",
+    files=["ring_test.go"], wb_files=["ring_wb_test.go"],
+    quick_n=1500, thorough_n=60000,
+    variants=[dict(), dict(tags="packetioSizeHardlimit")],
+    trusted=LEAN_TB + [
+        "hand-written Lean model of packetio/buffer.go (Model/Ring.lean), validated on every run against the real Buffer: results, Count, Size (L1) and head/tail/len(data)/count (L2) after every operation, in the default build and with -tags packetioSizeHardlimit",
+        "reading of the property as Spec/Ring.lean (a FIFO of packets with limits)",
+        "Go harness harness/inpkg/packetio, overlay mechanism, driver parsing; read results are compared as length + FNV-1a 64 hash"],
+    assumptions=["sequential histories (blocking and wake-ups are C08)", "slice aliasing is outside the value-based model; the harness overwrites the caller's slice after every Write"],
+)
+
+seq(prop="C06", lean_targets=["TransportVerif.Props.C06"],
+    design_ref="DESIGN.md 7.6, 10",
+    technique="Lean 4 proof: ring (head/tail/grow/wrap) refines a FIFO of packets via the invariant stored = frames of the queue, by induction over operation lists; differential correspondence model vs. Go",
+    level_text="PENDING",
+    level_note="PENDING",
+    nontrivial=["wrap-header-split", "wrap-payload", "grow-with-data", "grow-discontinuous", "short-read", "read-wrap", "read-header-split"],
+    rule="generated histories of Write/Read/limit changes/Close in four modes (aim at the ring end with every offset; growth with data present; "
+         "size limits around 2048*2^k; the 4 MiB cap). non-trivial = a header or payload is split at the ring end, the ring grows with data present, "
+         "or a read is short; distinct = hash of the ops text",
+    **_RING_COMMON)
+
+seq(prop="C07", lean_targets=["TransportVerif.Props.C07"],
+    design_ref="DESIGN.md 7.7, 10",
+    technique="Lean 4 proof: exact refusal condition and occupancy accounting of the ring model against the FIFO-with-limits spec, termination of the growth loop as a proof obligation; differential correspondence model vs. Go",
+    level_text="PENDING",
+    level_note="PENDING",
+    nontrivial=["full-count", "full-size", "full-cap", "full-by-one", "fits-size-exactly", "fits-count-exactly", "fits-cap-exactly"],
+    rule="as C06; non-trivial = a write is refused by a limit, or accepted with no room to spare; distinct = hash of the ops text",
+    **_RING_COMMON)
+ALL = SEQ
